@@ -8,7 +8,8 @@ crate, compared with the hand-kept classification translate/panic_sites.json.
 
 usage: panics.py <repo> <generated-dir> [--dump]
 Writes <generated-dir>/PanicSites.lean (the inventory with each site's class).  A site without a
-classification gets class `unclassified` (the theorem in Props/C14.lean rejects it).
+classification gets class `unclassified` (the theorem in Props/C14.lean rejects it).  A site is identified by
+file, function and statement text; a statement that moved to another function of its file keeps its class.
 """
 import json
 import os
@@ -62,6 +63,28 @@ for base, _, files in sorted(os.walk(os.path.join(repo, "src"))):
             for k in kinds:
                 sites.append({"file": rel, "fn": func, "kind": k, "text": " ".join(st.split())})
 
+KEYWORDS = {"let", "mut", "ref", "if", "else", "match", "return", "for", "in", "while", "loop", "as", "fn", "pub", "self", "Self",
+            "true", "false", "move", "break", "continue", "where", "impl", "use", "crate", "super", "dyn", "unsafe", "const", "static"}
+
+
+def shape(text):
+    """The statement with the names of values blanked: an identifier that is not a keyword, not a path segment
+    (`a::b`), not called (`f(`, `m!`), not a generic (`T<`), and not a field or method (after `.`) becomes `_`.
+    Types, functions, methods, fields, literals and the structure of the expression stay."""
+    out, i = [], 0
+    for m in re.finditer(r"[A-Za-z_][A-Za-z0-9_]*", text):
+        out.append(text[i:m.start()])
+        i = m.end()
+        w = m.group(0)
+        before = text[:m.start()].rstrip()
+        after = text[m.end():].lstrip()
+        keep = (w in KEYWORDS or before.endswith(".") or before.endswith("::") or after.startswith("(") or after.startswith("::")
+                or after.startswith("!") or after.startswith("<") or w[0].isupper())
+        out.append(w if keep else "_")
+    out.append(text[i:])
+    return "".join(out)
+
+
 classified = []
 for s in sites:
     cls = "unclassified"
@@ -69,6 +92,17 @@ for s in sites:
         if k["file"] == s["file"] and k["fn"] == s["fn"] and k["text"] == s["text"]:
             cls = k["class"]
             break
+    if cls == "unclassified":
+        # the same statement in another function of the same file (code moved into a helper, a function
+        # renamed): it keeps its classification if all classified statements of that text in the file agree
+        same = {k["class"] for k in known if k["file"] == s["file"] and k["text"] == s["text"]}
+        if len(same) == 1:
+            cls = same.pop()
+    if cls == "unclassified":
+        # ... and the same statement with other names for its local variables (see `shape`)
+        same = {k["class"] for k in known if k["file"] == s["file"] and shape(k["text"]) == shape(s["text"])}
+        if len(same) == 1:
+            cls = same.pop()
     classified.append(dict(s, **{"class": cls}))
 
 if "--dump" in sys.argv:
